@@ -262,6 +262,10 @@ class ProcessStartCommand(ProcessCommand):
         """
         # check the process state on the targeted Supvisors instance
         instance_info = self.get_instance_info()
+        if not instance_info:
+            # the process has been removed from the Supervisor of the targeted Supvisors instance in the meantime
+            self.logger.error(f'ProcessStartCommand.timed_out: {self.process.namespec} removed from {self.identifier}')
+            return ProcessStates.STARTING, ProcessRequestResult.TIMED_OUT, time.monotonic()
         process_state = instance_info['state']
         process_state_date = instance_info['event_time']
         # if the evaluation is done in the RUNNING state, the EXITED state must be expected
@@ -363,6 +367,11 @@ class ProcessStopCommand(ProcessCommand):
         """
         # check the process state on the targeted Supvisors instance
         instance_info = self.get_instance_info()
+        if not instance_info:
+            # the process has been removed from the Supervisor of the targeted Supvisors instance in the meantime
+            # a process can only be removed when stopped, so the job is done
+            self.logger.warn(f'ProcessStopCommand.timed_out: {self.process.namespec} removed from {self.identifier}')
+            return ProcessStates.STOPPED, ProcessRequestResult.SUCCESS, time.monotonic()
         process_state = instance_info['state']
         process_state_time = instance_info['event_time']
         if process_state == ProcessStates.STOPPING:
